@@ -51,20 +51,37 @@ class Fn:
                     out.append((a, truth, tn))
         return out
 
-    def expand(self, nid: int, e: ast.AST, depth: int = 4, stop=()) -> ast.AST:
+    def expand(self, nid: int, e: ast.AST, depth: int = 4, stop=(), comps: bool = False) -> ast.AST:
         """`e` with every local that has exactly one reaching definition at node `nid`, bound to a pure
-        expression, replaced by that expression (recursively): `x = a + b; f(x)` is read as `f(a + b)`."""
+        expression, replaced by that expression (recursively): `x = a + b; f(x)` is read as `f(a + b)`.
+        A definition is read through only if the locals it mentions still have, at `nid`, the definitions they had
+        where it was made.  With `comps`, definitions that are comprehensions are read through as well
+        (capture-avoiding)."""
         if depth <= 0:
             return e
         mapping = {}
+        banned = (ast.Yield, ast.Await, ast.NamedExpr, ast.Lambda) + (() if comps else (ast.ListComp, ast.DictComp, ast.SetComp, ast.GeneratorExp))
         for x in ast.walk(e):
             if isinstance(x, ast.Name) and isinstance(x.ctx, ast.Load) and x.id in self.lf.locals and x.id not in stop and x.id not in mapping:
                 vals = self.lf.values_reaching(nid, x.id)
                 if len(vals) == 1 and vals[0][0] != PARAM and vals[0][1] is not None:
                     site, v = vals[0]
-                    if not any(isinstance(y, (ast.Yield, ast.Await, ast.NamedExpr, ast.Lambda, ast.ListComp, ast.DictComp, ast.SetComp, ast.GeneratorExp)) for y in ast.walk(v)):
-                        mapping[x.id] = self.expand(site, v, depth - 1, stop)
-        out = substitute(e, mapping) if mapping else e
+                    if not any(isinstance(y, banned) for y in ast.walk(v)):
+                        stable = True
+                        for y in ast.walk(v):
+                            if isinstance(y, ast.Name) and isinstance(y.ctx, ast.Load) and y.id in self.lf.locals and y.id != x.id:
+                                if self.lf.defs_reaching(site, y.id) != self.lf.defs_reaching(nid, y.id):
+                                    stable = False
+                        if stable:
+                            inner = self.expand(site, v, depth - 1, stop, comps)
+                            # `x = f(x)` whose inner x cannot be read through would confuse the old and the new x
+                            if not any(isinstance(y, ast.Name) and y.id == x.id and isinstance(y.ctx, ast.Load) for y in ast.walk(inner)):
+                                mapping[x.id] = inner
+        if mapping:
+            from fsa.summ import _subst
+            out = _subst(e, mapping)
+        else:
+            out = e
         return self._inline_pure_calls(out)
 
     # -- calls of pure one-expression helpers (siblings defined in the enclosing function, or nested here) are read as
@@ -167,9 +184,18 @@ class Fn:
     def returns(self) -> List[Node]:
         return [n for n in self.cfg.nodes if n.kind == 'stmt' and isinstance(n.ast, ast.Return)]
 
+    def raised(self, n: Node) -> Optional[str]:
+        """Class raised by a raise statement, reading `raise make_error(x)` through a one-expression local helper."""
+        c = raised_class(n.ast)
+        if n.ast.exc is not None and isinstance(n.ast.exc, ast.Call) and isinstance(n.ast.exc.func, ast.Name) and n.ast.exc.func.id in self._pure_helpers():
+            x = self._inline_pure_calls(n.ast.exc)
+            if isinstance(x, ast.Call):
+                return text(x.func).split('.')[-1]
+        return c
+
     def raises(self, cls: Optional[str] = None) -> List[Node]:
         return [n for n in self.cfg.nodes if n.kind == 'stmt' and isinstance(n.ast, ast.Raise)
-                and (cls is None or raised_class(n.ast) == cls)]
+                and (cls is None or self.raised(n) == cls)]
 
     def tests(self) -> List[Node]:
         return [n for n in self.cfg.nodes if n.kind == 'test']
@@ -318,6 +344,8 @@ class Fn:
         if len(vals) != 1 or vals[0][0] == PARAM or vals[0][1] is None:
             return None
         site, v = vals[0]
+        if isinstance(v, ast.DictComp):
+            return v
         empty = (isinstance(v, ast.Dict) and not v.keys) or (isinstance(v, ast.Call) and dotted(v.func) in ('dict', 'collections.OrderedDict', 'OrderedDict') and not v.args and not v.keywords)
         if not empty:
             return None
